@@ -13,7 +13,7 @@ MASK_FUNCS = ['ioos_qc.qartod.gross_range_test', 'ioos_qc.qartod.location_test',
 findings = []
 for f in MASK_FUNCS:
     findings.append(dict(
-        property='C15', rule='C15.data', key=f'{f}:masked-array:mask-dropped-by-normaliser', status='known',
+        property='C15', rule='C15.data', key=f'{f}:masked-array:masked-element-evaluated', status='known',
         what=f'{f.split(".")[-1]}: the normaliser np.ma.masked_invalid(np.array(x)...) drops the mask of a numpy masked-array input, so a masked '
              'element is judged by the number stored under its mask instead of being flagged MISSING (e.g. gross_range_test(np.ma.array([1,200,3], '
              'mask=[0,1,0]), (0,10)) -> [1,4,1]).',
